@@ -6,6 +6,7 @@ import (
 	"errors"
 	"fmt"
 	"io"
+	"regexp"
 	"strconv"
 	"strings"
 
@@ -26,7 +27,10 @@ type Outcome struct {
 	Volatile bool   // … unless documented otherwise (Reuse option, buffer-returning API)
 	Alias    string // set when overwriting the caller's input buffer after the call changed Live
 	Out      []byte // writers: the bytes returned or written by this call
-	Stray    []byte // pretty.Writer: bytes this call appended to the io.Writer of an EARLIER Write call
+	Stray    []byte // pretty.Writer: bytes this call offered to the io.Writer of an EARLIER Write call
+	Left     int    // pretty.Writer: how many more bytes that earlier io.Writer accepted before this call (-1: any number, -2: there is none)
+	Tried    []byte // pretty.Writer.Write: the bytes offered to the io.Writer
+	Err      string // pretty.Writer: the error returned
 }
 
 // Subject is one instance (or the pools) that calls are made on.
@@ -93,13 +97,15 @@ func (r *chunkReader) Read(p []byte) (int, error) {
 }
 
 type sink struct {
-	buf       bytes.Buffer
+	buf       bytes.Buffer // what the writer accepted
+	tried     bytes.Buffer // everything it was offered
 	failAfter int
 }
 
 func newSink(c *Call) *sink { return &sink{failAfter: abortAt(c, "wfail")} }
 
 func (s *sink) Write(p []byte) (int, error) {
+	s.tried.Write(p)
 	if s.failAfter >= 0 && s.buf.Len()+len(p) > s.failAfter {
 		n := s.failAfter - s.buf.Len()
 		if n < 0 {
@@ -141,6 +147,16 @@ func finishLive(o *Outcome, bufs ...[]byte) {
 		o.Alias = fmt.Sprintf("before overwrite %s, after %s", clip(o.LiveText), clip(after))
 		// keep the snapshot taken at return time
 	}
+}
+
+var addrRe = regexp.MustCompile(`0x[0-9a-f]{6,16}`)
+
+// normAddr hides pointer values (fmt's %v prints them for pointer fields): never compare addresses.
+func normAddr(s string) string {
+	if !strings.Contains(s, "0x") {
+		return s
+	}
+	return addrRe.ReplaceAllString(s, "0xPTR")
 }
 
 func clip(s string) string {
@@ -484,8 +500,16 @@ func (s *prettyWriter) Exec(c *Call) (o Outcome) {
 	}
 	data := c.Data.Build()
 	before := 0
+	o.Left = -2
 	if s.lastSink != nil {
-		before = s.lastSink.buf.Len()
+		before = s.lastSink.tried.Len()
+		o.Left = -1
+		if s.lastSink.failAfter >= 0 {
+			o.Left = s.lastSink.failAfter - s.lastSink.buf.Len()
+			if o.Left < 0 {
+				o.Left = 0
+			}
+		}
 	}
 	var pan any
 	func() {
@@ -500,19 +524,22 @@ func (s *prettyWriter) Exec(c *Call) (o Outcome) {
 		case "Marshal":
 			b, err := s.w.Marshal(data)
 			o.Out = append([]byte{}, b...)
+			o.Err = errText(err)
 			o.Text = "B=" + string(b) + " E=" + errText(err)
 			o.Live = []any{b}
 		case "Write":
 			sk := newSink(c)
 			err := s.w.Write(sk, data)
 			o.Out = append([]byte{}, sk.buf.Bytes()...)
+			o.Tried = append([]byte{}, sk.tried.Bytes()...)
+			o.Err = errText(err)
 			o.Text = "W=" + sk.buf.String() + " E=" + errText(err)
 			s.lastSink = sk
-			before = sk.buf.Len()
+			before = sk.tried.Len()
 		}
 	}()
-	if s.lastSink != nil && s.lastSink.buf.Len() > before {
-		o.Stray = append([]byte{}, s.lastSink.buf.Bytes()[before:]...)
+	if s.lastSink != nil && s.lastSink.tried.Len() > before {
+		o.Stray = append([]byte{}, s.lastSink.tried.Bytes()[before:]...)
 	}
 	o.Text += " P=" + panicText(pan)
 	finishLive(&o)
@@ -613,9 +640,11 @@ func (s *poolSubject) Exec(c *Call) (o Outcome) {
 				case "oj.ParseString":
 					res, err = p.Parse([]byte(string(buf)), args...)
 				case "oj.MustParse":
-					if res, err = p.Parse(buf, args...); err != nil {
-						panic(err)
+					r, e := p.Parse(buf, args...)
+					if e != nil {
+						panic(e)
 					}
+					res = r
 				default:
 					res, err = p.Parse(buf, args...)
 				}
